@@ -83,8 +83,11 @@ def fit_and_measure(case):
             lo, hi = float(np.partition(Tc, nseg)[nseg]), float(np.partition(Tc, -nseg)[-nseg])
         else:
             lo, hi = float("nan"), float("nan")
+        Tc2 = p2.loc[p2["model_split"] == key, "temperature"].to_numpy(dtype=float) if "model_split" in p2 else np.array([])
+        Tall = np.concatenate([Tc, Tc2[np.isfinite(Tc2)]])
+        # ... and the regime beyond it is actually visited by that component's days (in the baseline or in the other weather year)
         outside = [name for name, bp, slope in (("heating", p["hbp"], p["hb_slope"]), ("cooling", p["cbp"], p["cb_slope"]))
-                   if slope and not (lo <= bp <= hi) and bool(np.any(Tc < bp) if name == "heating" else np.any(Tc > bp))]
+                   if slope and not (lo <= bp <= hi) and bool(np.any(Tall < bp) if name == "heating" else np.any(Tall > bp))]
         comps.append(dict(component=str(key), days=int(len(Tc)), box=[lo, hi], true_balance_point_outside_box=outside))
     out["components"] = comps
     for name, pr, g in (("baseline", p1, g1), ("other_year", p2, g2)):
